@@ -37,7 +37,16 @@ fn b(e: Expr) -> Box<Expr> { Box::new(e) }
 thread_local! {
     /// programs may contain `Expr::Race` (abandoned sub-queries)
     pub static RACE: std::cell::Cell<bool> = const { std::cell::Cell::new(false) };
+    /// programs may contain partial nodes (`Expr::NonZero`) behind guards
+    pub static PARTIAL: std::cell::Cell<bool> = const { std::cell::Cell::new(false) };
+    /// (guard node, partial node) pairs of the program being generated
+    static GUARDS: std::cell::RefCell<Vec<(u32, u32)>> = const { std::cell::RefCell::new(Vec::new()) };
 }
+
+/// called at the start of every scenario: nothing carries over
+pub fn clear_guards() { GUARDS.with(|g| g.borrow_mut().clear()); }
+
+fn is_partial(n: u32) -> bool { GUARDS.with(|g| g.borrow().iter().any(|(_, p)| *p == n)) }
 
 fn gen_expr(rng: &mut Rng, avail: &[u32], depth: u32, vectorish: bool) -> Expr {
     if avail.is_empty() {
@@ -52,6 +61,14 @@ fn gen_expr(rng: &mut Rng, avail: &[u32], depth: u32, vectorish: bool) -> Expr {
         };
     }
     let d = depth - 1;
+    // a guarded read of a partial node: `if g != 0 { .. p .. } else { .. }`
+    let guards: Vec<(u32, u32)> = GUARDS.with(|g| g.borrow().iter().copied().filter(|(g, _)| avail.contains(g)).collect());
+    if !guards.is_empty() && rng.chance(1, 3) {
+        let (g, p) = *rng.pick(&guards);
+        let then = if rng.chance(1, 2) { Expr::Read(p) } else { Expr::Add(b(Expr::Read(p)), b(gen_expr(rng, avail, d, false))) };
+        let guarded = Expr::If(b(Expr::Read(g)), b(then), b(gen_expr(rng, avail, d, false)));
+        return if RACE.with(std::cell::Cell::get) && rng.chance(1, 2) { Expr::Race(*rng.pick(avail), b(guarded)) } else { guarded };
+    }
     if RACE.with(std::cell::Cell::get) && rng.chance(1, 10) {
         return Expr::Race(*rng.pick(avail), b(gen_expr(rng, avail, d, vectorish)));
     }
@@ -96,6 +113,17 @@ pub fn gen_program(rng: &mut Rng, p: &GenParams) -> Program {
     for _ in 0..n_ex {
         nodes.push(Node { kind: Kind::Ex, expr: Expr::Const(vec![]) });
     }
+    GUARDS.with(|g| g.borrow_mut().clear());
+    if PARTIAL.with(std::cell::Cell::get) {
+        // partial nodes over some inputs; only ever read behind their guard
+        for g in 0..n_in {
+            if rng.chance(1, 2) {
+                nodes.push(Node { kind: Kind::Nm, expr: Expr::NonZero(b(Expr::Read(g))) });
+                let p = nodes.len() as u32 - 1;
+                GUARDS.with(|gs| gs.borrow_mut().push((g, p)));
+            }
+        }
+    }
     // per-run bias so that some programs are firewall/projection heavy
     let fw_w = if p.plain { 0 } else { rng.range(1, 4) };
     let pj_w = if p.plain { 0 } else { rng.range(0, 3) };
@@ -105,7 +133,7 @@ pub fn gen_program(rng: &mut Rng, p: &GenParams) -> Program {
         let fwpj: Vec<u32> = (0..i)
             .filter(|j| matches!(nodes[*j as usize].kind, Kind::Fw | Kind::Pj))
             .collect();
-        let all: Vec<u32> = (0..i).collect();
+        let all: Vec<u32> = (0..i).filter(|j| !is_partial(*j)).collect();
         let total = fw_w + nm_w + if fwpj.is_empty() { 0 } else { pj_w };
         let r = rng.below(total);
         let kind = if r < nm_w {
@@ -636,6 +664,99 @@ pub fn gen_program_tfc(rng: &mut Rng) -> Program {
         tops.push(nodes.len() as u32 - 1);
     }
     Program { nodes }
+}
+
+/// Guard shapes (added after the seeded change C05-3): partial nodes behind
+/// guards, read by nodes that also abandon sub-queries, so that the order of
+/// the recorded dependencies matters (the guard has to be verified before the
+/// node it guards).
+pub fn gen_program_guard(rng: &mut Rng) -> Program {
+    let mut nodes: Vec<Node> = Vec::new();
+    let n_g = rng.range(1, 2) as u32;
+    let n_a = rng.range(1, 2) as u32;
+    for _ in 0..n_g + n_a {
+        nodes.push(Node { kind: Kind::In, expr: Expr::Const(vec![]) });
+    }
+    let gs: Vec<u32> = (0..n_g).collect();
+    let data: Vec<u32> = (n_g..n_g + n_a).collect();
+    // partial nodes
+    let mut ps: Vec<(u32, u32)> = Vec::new();
+    for g in &gs {
+        nodes.push(Node { kind: Kind::Nm, expr: Expr::NonZero(b(Expr::Read(*g))) });
+        ps.push((*g, nodes.len() as u32 - 1));
+    }
+    // plain nodes that take a while to compute (targets of abandoned reads)
+    let mut xs: Vec<u32> = Vec::new();
+    for _ in 0..rng.range(1, 3) {
+        let src = if xs.is_empty() || rng.chance(1, 2) { *rng.pick(&data) } else { *rng.pick(&xs) };
+        let e = match rng.below(3) {
+            0 => Expr::Add(b(Expr::Read(src)), b(Expr::Read(*rng.pick(&data)))),
+            1 => Expr::Read(src),
+            _ => Expr::Mod(b(Expr::Read(src)), 3),
+        };
+        let kind = if rng.chance(1, 5) { Kind::Fw } else { Kind::Nm };
+        nodes.push(Node { kind, expr: e });
+        xs.push(nodes.len() as u32 - 1);
+    }
+    // guarded readers
+    let mut rs: Vec<u32> = Vec::new();
+    for _ in 0..rng.range(1, 3) {
+        let (g, p) = *rng.pick(&ps);
+        let then = match rng.below(3) {
+            0 => Expr::Read(p),
+            1 => Expr::Add(b(Expr::Read(p)), b(Expr::Read(*rng.pick(&xs)))),
+            _ => Expr::Join(vec![p, *rng.pick(&xs)]),
+        };
+        let other = if rng.chance(1, 2) { Expr::Const(vec![rng.range(0, 9) as i64]) } else { Expr::Read(*rng.pick(&xs)) };
+        let guarded = Expr::If(b(Expr::Read(g)), b(then), b(other));
+        let e = match rng.below(4) {
+            0 => guarded,
+            1 => Expr::Add(b(Expr::Read(*rng.pick(&xs))), b(guarded)),
+            _ => Expr::Race(*rng.pick(&xs), b(guarded)),
+        };
+        nodes.push(Node { kind: Kind::Nm, expr: e });
+        rs.push(nodes.len() as u32 - 1);
+    }
+    // tops
+    for _ in 0..rng.range(1, 2) {
+        let e = Expr::Add(b(Expr::Read(*rng.pick(&rs))), b(Expr::Read(if rng.chance(1, 2) { *rng.pick(&rs) } else { *rng.pick(&data) })));
+        nodes.push(Node { kind: Kind::Nm, expr: e });
+    }
+    Program { nodes }
+}
+
+/// histories for `gen_program_guard`: the guard inputs move between zero and
+/// non-zero, the data moves, the upper nodes are asked after every session
+pub fn gen_history_guard(rng: &mut Rng, prog: &Program) -> Vec<Op> {
+    let ins = prog.of_kind(Kind::In);
+    let n = prog.len();
+    let n_g = prog.nodes.iter().filter(|x| matches!(x.expr, Expr::NonZero(_))).count().max(1);
+    let mut cur: Vec<i64> = ins.iter().enumerate().map(|(i, _)| if i < n_g { 1 } else { rng.below(4) as i64 }).collect();
+    let mut ops = vec![Op::Session {
+        steps: ins.iter().zip(&cur).map(|(i, v)| SessStep::Set { node: *i, val: vec![*v] }).collect(),
+        commit: true,
+    }];
+    let top = |rng: &mut Rng| n - 1 - rng.below(u64::from(n.min(3))) as u32;
+    ops.push(Op::Query { root: top(rng), new_tracked: true });
+    for _ in 0..rng.range(2, 6) {
+        let i = rng.usize(ins.len());
+        let v = if i < n_g {
+            // guards: mostly toggling between zero and non-zero
+            if cur[i] == 0 { rng.range(1, 2) as i64 } else if rng.chance(2, 3) { 0 } else { 3 - cur[i] }
+        } else {
+            let mut v = rng.below(5) as i64;
+            if v == cur[i] {
+                v += 1;
+            }
+            v
+        };
+        cur[i] = v;
+        ops.push(Op::Session { steps: vec![SessStep::Set { node: ins[i], val: vec![v] }], commit: true });
+        for _ in 0..rng.range(1, 2) {
+            ops.push(Op::Query { root: top(rng), new_tracked: rng.chance(1, 2) });
+        }
+    }
+    ops
 }
 
 /// Wide shapes (added after the seeded changes C01-5 and C02-4): one firewall
